@@ -145,7 +145,8 @@ package store
 //@   properties C05
 //@   ghost var cacheReset bool = false
 //@   requires nonnil: s != nil
-//@   modifies heap, cacheReset
+//@   requires data_set_lock_not_held_by_the_caller: dsMuxHeld == 0
+//@   modifies heap, cacheReset, dsMuxHeld
 //@   set cacheReset = true at call resetDataSet
 //@   assert at call NewRdbWriter: cache_is_reset_before_the_new_snapshot_is_created: cacheReset
 
